@@ -148,6 +148,7 @@ struct Client {
     int fd = -1;        // client end (-1: not open / closed by the script)
     int sfd = -1;       // server end as handed over (number only; the server owns it)
     bool opened = false, closed = false, eof = false, shut = false;
+    bool stalled = false;   // the script stopped reading this client's socket (a slow receiver): the relay must hold what it cannot deliver yet
     Lexer lex;
 };
 
@@ -241,7 +242,7 @@ long drain() {
     char buf[65536];
     for (int c = 1; c <= W.nclients; ++c) {
         Client& k = W.cl[c];
-        if (k.fd < 0 || k.eof) continue;
+        if (k.fd < 0 || k.eof || k.stalled) continue;
         while (true) {
             const ssize_t n = ::recv(k.fd, buf, sizeof buf, MSG_DONTWAIT);
             if (n > 0) { k.lex.feed(buf, static_cast<size_t>(n)); moved += n; continue; }
@@ -384,18 +385,28 @@ bool build_parts(int c, const std::string& spec, std::string& bytes, std::string
 
 // write all bytes to the client's socket, letting the server run whenever the socket is full or
 // after every `chunk` bytes (chunk = 0: as much as fits)
+static bool g_auto_unstalled = false;
 bool send_all(Client& k, const std::string& bytes, long chunk, std::string& why) {
     size_t off = 0;
+    int idle = 0;
     while (off < bytes.size()) {
         size_t want = bytes.size() - off;
         if (chunk > 0 && static_cast<size_t>(chunk) < want) want = static_cast<size_t>(chunk);
         const ssize_t n = ::send(k.fd, bytes.data() + off, want, MSG_DONTWAIT | MSG_NOSIGNAL);
         if (n > 0) {
+            idle = 0;
             off += static_cast<size_t>(n);
             if (chunk > 0 && off < bytes.size()) { if (!quiesce(why)) return false; }
             continue;
         }
-        if (n < 0 && (errno == EAGAIN || errno == EWOULDBLOCK)) { if (!quiesce(why)) return false; if (k.eof) break; continue; }
+        if (n < 0 && (errno == EAGAIN || errno == EWOULDBLOCK)) {
+            if (!quiesce(why)) return false;
+            if (k.eof) break;
+            // the sender is blocked and nothing moves while a receiver is stalled (a relay that stops reading the sender): the slow
+            // receiver starts reading again so that the behaviour can go on; the event says so
+            if (++idle >= 40) { for (int c = 1; c <= W.nclients; ++c) if (W.cl[c].stalled) { W.cl[c].stalled = false; g_auto_unstalled = true; } idle = 0; }
+            continue;
+        }
         if (n < 0 && errno == EINTR) continue;
         break;  // EPIPE / ECONNRESET: the server has closed this client; the rest cannot be sent
     }
@@ -477,8 +488,16 @@ int main(int argc, char** argv) {
             if (c < 1 || c > W.nclients || W.cl[c].fd < 0 || W.cl[c].shut) continue;
             std::string bytes, pj;
             if (!build_parts(c, cmd.s("p"), bytes, pj)) { std::fprintf(stderr, "bad parts: %s\n", cmd.s("p").c_str()); return 2; }
+            g_auto_unstalled = false;
             if (!send_all(W.cl[c], bytes, cmd.i("split", 0), why) || !quiesce(why)) { emit_crash(why); skipping = true; continue; }
-            emit_raw("{\"op\":\"send\",\"c\":" + std::to_string(c) + ",\"parts\":" + pj + "," + observe() + "}\n");
+            emit_raw("{\"op\":\"send\",\"c\":" + std::to_string(c) + ",\"parts\":" + pj + ",\"unstalled\":" + (g_auto_unstalled ? "1" : "0") + "," + observe() + "}\n");
+            continue;
+        }
+        if (cmd.op == "stall" || cmd.op == "unstall") {
+            if (c < 1 || c > W.nclients || W.cl[c].fd < 0) continue;
+            W.cl[c].stalled = cmd.op == "stall";
+            if (!quiesce(why)) { emit_crash(why); skipping = true; continue; }
+            emit_raw("{\"op\":" + ev::jstr(cmd.op) + ",\"c\":" + std::to_string(c) + "," + observe() + "}\n");
             continue;
         }
         if (cmd.op == "close" || cmd.op == "shutwr") {
